@@ -5,6 +5,7 @@
 -/
 import MellonProofs.ConditionalLemmas
 import MellonProofs.SchurLemmas
+import MellonProofs.PSDJoint
 import MellonModel.Decomp
 import Mathlib.LinearAlgebra.Matrix.PosDef
 import Mathlib.Algebra.Order.Star.Real
@@ -133,6 +134,24 @@ theorem inducing_loewner {cov : Cov ℝ} {x : Mat ℝ n d} {xu : Mat ℝ m d} {s
     have := schur_psd hLN (toM (solveLowerM Lp (gram cov xu x))) (toM (gram cov xu x)) _ h1 hjoint
     rw [hL, toM_transpose, Matrix.transpose_transpose]
     exact this
+
+/-- **never above K, from the kernel alone.**  For a positive semi-definite kernel (`PSD.PSDOn`: proved for
+    every expression over ExpQuad / Linear leaves, sums, products, non-negative scalars and natural powers —
+    `PSD.psdTree_psdOn` — and assumed for the Matérn / Exponential / RatQuad leaves) and `jitter ≥ 0`, the
+    inducing-point factor satisfies `(K + jitter·I) − L Lᵀ ⪰ 0`; no matrix hypothesis is left. -/
+theorem inducing_loewner_of_psd_kernel {cov : Cov ℝ} {x : Mat ℝ n d} {xu : Mat ℝ m d} {sigma jitter : ℝ}
+    {L : Mat ℝ n m} (h : standardLowRank cov x xu Option.none sigma jitter = some L)
+    (hk : PSD.PSDOn d cov.k) (hj : 0 ≤ jitter) :
+    (toM (gram cov x x) + jitter • (1 : Matrix (Fin n) (Fin n) ℝ) - toM L * (toM L)ᵀ).PosSemidef :=
+  inducing_loewner h
+    (PSD.joint_reg_psd hk xu x (PSD.smul_one_psd (le_trans hj (le_max_right _ _))) (PSD.smul_one_psd hj))
+
+/-- … in particular for every kernel expression built from ExpQuad and Linear leaves. -/
+theorem inducing_loewner_closed_tree {cov : Cov ℝ} {x : Mat ℝ n d} {xu : Mat ℝ m d} {sigma jitter : ℝ}
+    {L : Mat ℝ n m} (h : standardLowRank cov x xu Option.none sigma jitter = some L)
+    (ht : PSD.PSDTree (fun _ => False) cov) (hj : 0 ≤ jitter) :
+    (toM (gram cov x x) + jitter • (1 : Matrix (Fin n) (Fin n) ℝ) - toM L * (toM L)ᵀ).PosSemidef :=
+  inducing_loewner_of_psd_kernel h (PSD.psdTree_psdOn_closed ht d) hj
 
 /-! ### Nyström assembly -/
 
